@@ -4,4 +4,5 @@ From Coq Require Import ExtrOcamlBasic.
 From SV Require Import Lib.Bytes Lib.ExtractBase Model.FwLife Model.FwLog.
 Extraction "c04_model.ml" extract_anchor exec parse_cmd argv pfop_stdin join_lines session
   k_empty chain_in_listing
+  chain_in_output listing
   sessionL log_call log_swallows subclass env_once env_from env_ok.
